@@ -31,18 +31,18 @@ const (
 )
 
 var (
-	flagProp    = flag.String("prop", "", "property id (C01..C20)")
-	flagTier    = flag.String("tier", "quick", "quick|thorough")
-	flagRepo    = flag.String("repo", "/repo", "path of the goja working tree")
-	flagVerif   = flag.String("verif", "/verif", "path of the verification directory (evidence, known findings)")
-	flagRule    = flag.String("rule", "", "debug: run one rule and print every obligation")
-	flagKey     = flag.String("key", "", "with -rule/-prop: only print obligations whose key contains this substring (replay)")
-	flagMutant  = flag.String("mutant", "", "internal: run one positive-control mutant")
-	flagList    = flag.Bool("list", false, "list properties, rules and mutants")
-	flagArch    = flag.String("goarch", "", "GOARCH for the load")
-	flagNoEvid  = flag.Bool("no-evidence", false, "do not write the evidence file (used when analysing a tree other than /repo)")
+	flagProp     = flag.String("prop", "", "property id (C01..C20)")
+	flagTier     = flag.String("tier", "quick", "quick|thorough")
+	flagRepo     = flag.String("repo", "/repo", "path of the goja working tree")
+	flagVerif    = flag.String("verif", "/verif", "path of the verification directory (evidence, known findings)")
+	flagRule     = flag.String("rule", "", "debug: run one rule and print every obligation")
+	flagKey      = flag.String("key", "", "with -rule/-prop: only print obligations whose key contains this substring (replay)")
+	flagMutant   = flag.String("mutant", "", "internal: run one positive-control mutant")
+	flagList     = flag.Bool("list", false, "list properties, rules and mutants")
+	flagArch     = flag.String("goarch", "", "GOARCH for the load")
+	flagNoEvid   = flag.Bool("no-evidence", false, "do not write the evidence file (used when analysing a tree other than /repo)")
 	flagManifest = flag.Bool("manifest", false, "write MANIFEST.json from the property table")
-	flagMutJobs = flag.Int("mutant-jobs", 4, "parallel mutant subprocesses in the thorough tier")
+	flagMutJobs  = flag.Int("mutant-jobs", 4, "parallel mutant subprocesses in the thorough tier")
 )
 
 func main() {
